@@ -122,7 +122,7 @@ func podJoin[SC baseCtl](name, kind string, mkSrc func(W) runtime.Object,
 			if err != nil {
 				return nil, err
 			}
-			return podJoinOver(ctx, sc, pc, nil, func() (pod.Controller, error) { return joinFn(ctx, sc, pc) })
+			return podJoinOver(ctx, sc, pc, nil, func() (pod.Controller, error) { return joinFn(jctx(ctx), sc, pc) })
 		}}
 }
 
@@ -177,7 +177,7 @@ func joinCases() []joinCase {
 				if err != nil {
 					return nil, err
 				}
-				j, err := join.IngressServices(ctx, ic, sc)
+				j, err := join.IngressServices(jctx(ctx), ic, sc)
 				if err != nil {
 					return nil, err
 				}
@@ -212,7 +212,7 @@ func joinCases() []joinCase {
 				if err != nil {
 					return nil, err
 				}
-				return podJoinOver(ctx, ic, pc, sc, func() (pod.Controller, error) { return join.IngressPods(ctx, ic, sc, pc) })
+				return podJoinOver(ctx, ic, pc, sc, func() (pod.Controller, error) { return join.IngressPods(jctx(ctx), ic, sc, pc) })
 			}},
 	}
 }
@@ -278,12 +278,31 @@ func joinMain(args []string) int {
 	return 0
 }
 
+// The context handed to a join constructor.  The generic core uses it for nothing but logging, so ending it
+// while the join is open changes nothing: the join keeps following its source until it is closed.
+var joinCtxOverride context.Context
+
+func jctx(ctx context.Context) context.Context {
+	if joinCtxOverride != nil {
+		return joinCtxOverride
+	}
+	return ctx
+}
+
 func runJoinScenario(w *ndWriter, c joinCase, seed int64, steps int) {
 	rng := rand.New(rand.NewSource(seed))
 	pert := newPerturber(seed, []int{0, 3, 10}[rng.Intn(3)])
 	log := newLog(pert)
 	ctx, cancel := context.WithCancel(context.Background())
 	defer cancel()
+	jc, jcancel := context.WithCancel(ctx)
+	defer jcancel()
+	joinCtxOverride = jc
+	defer func() { joinCtxOverride = nil }()
+	cancelJoinCtxAt := -1
+	if rng.Intn(3) == 0 {
+		cancelJoinCtxAt = rng.Intn(steps)
+	}
 	src, dst, mid := NewObjServer(), NewObjServer(), NewObjServer()
 
 	srcs := map[string]W{}    // current sources
@@ -362,8 +381,13 @@ func runJoinScenario(w *ndWriter, c joinCase, seed int64, steps int) {
 		}
 	}
 	gated := rng.Intn(2) == 0
+	gatedSrv := src
 	if gated {
-		src.gate = make(chan struct{})
+		// one side is not ready while the join is created: the source, or the destination base
+		if rng.Intn(3) == 0 {
+			gatedSrv = dst
+		}
+		gatedSrv.gate = make(chan struct{})
 	}
 	emit := func(k string, fields string) {
 		w.write2(fmt.Sprintf(`{"k":%q,"join":%q,"kind":%q,"seed":%d,%s}`, k, c.name, c.kind, seed, fields))
@@ -391,8 +415,34 @@ func runJoinScenario(w *ndWriter, c joinCase, seed int64, steps int) {
 		prev = tag
 	}
 	if gated {
-		snapshot("gated") // the source is not ready: the join must not be ready
-		close(src.gate)
+		snapshot("gated") // one side is not ready: the join must not be ready
+		if rng.Intn(2) == 0 {
+			// the join is closed before it ever became ready: it stops all the same; a fresh one takes its place
+			run.stopEvents()
+			hung := false
+			closed := make(chan struct{})
+			go func() { run.closeJoin(); close(closed) }()
+			select {
+			case <-closed:
+			case <-time.After(3 * time.Second):
+				hung = true
+			}
+			select {
+			case <-run.joinDone:
+			case <-time.After(3 * time.Second):
+				hung = true
+			}
+			emit("join.earlyclosed", fmt.Sprintf(`"hung":%v,"gated":%q`, hung, map[bool]string{true: "src", false: "dst"}[gatedSrv == src]))
+			nrun, err := restartJoin(ctx, c, run)
+			if err != nil {
+				emit("join.error", fmt.Sprintf(`"err":%q`, err.Error()))
+				return
+			}
+			run = nrun
+			prev = ""
+			snapshot("gated")
+		}
+		close(gatedSrv.gate)
 	}
 	for cy := 0; cy <= cycles; cy++ {
 		if cy > 0 {
@@ -408,6 +458,9 @@ func runJoinScenario(w *ndWriter, c joinCase, seed int64, steps int) {
 		}
 		before := baseline // census of the long-lived bases alone (-1: not known yet)
 		for s := 0; s < steps; s++ {
+			if cy == 0 && s == cancelJoinCtxAt {
+				jcancel()
+			}
 			switch x := rng.Intn(10); {
 			case x < 4:
 				// often a burst of back-to-back source changes: the join has to end at the last one
@@ -560,39 +613,39 @@ var restartJoin = func(ctx context.Context, c joinCase, old *joinRun) (*joinRun,
 	switch c.name {
 	case "ServicePods":
 		return podJoinOver(ctx, old.src, old.dst.(pod.Controller), nil, func() (pod.Controller, error) {
-			return join.ServicePods(ctx, old.src.(service.Controller), old.dst.(pod.Controller))
+			return join.ServicePods(jctx(ctx), old.src.(service.Controller), old.dst.(pod.Controller))
 		})
 	case "RCPods":
 		return podJoinOver(ctx, old.src, old.dst.(pod.Controller), nil, func() (pod.Controller, error) {
-			return join.RCPods(ctx, old.src.(replicationcontroller.Controller), old.dst.(pod.Controller))
+			return join.RCPods(jctx(ctx), old.src.(replicationcontroller.Controller), old.dst.(pod.Controller))
 		})
 	case "RSPods":
 		return podJoinOver(ctx, old.src, old.dst.(pod.Controller), nil, func() (pod.Controller, error) {
-			return join.RSPods(ctx, old.src.(replicaset.Controller), old.dst.(pod.Controller))
+			return join.RSPods(jctx(ctx), old.src.(replicaset.Controller), old.dst.(pod.Controller))
 		})
 	case "DeploymentPods":
 		return podJoinOver(ctx, old.src, old.dst.(pod.Controller), nil, func() (pod.Controller, error) {
-			return join.DeploymentPods(ctx, old.src.(deployment.Controller), old.dst.(pod.Controller))
+			return join.DeploymentPods(jctx(ctx), old.src.(deployment.Controller), old.dst.(pod.Controller))
 		})
 	case "DaemonSetPods":
 		return podJoinOver(ctx, old.src, old.dst.(pod.Controller), nil, func() (pod.Controller, error) {
-			return join.DaemonSetPods(ctx, old.src.(daemonset.Controller), old.dst.(pod.Controller))
+			return join.DaemonSetPods(jctx(ctx), old.src.(daemonset.Controller), old.dst.(pod.Controller))
 		})
 	case "StatefulSetPods":
 		return podJoinOver(ctx, old.src, old.dst.(pod.Controller), nil, func() (pod.Controller, error) {
-			return join.StatefulSetPods(ctx, old.src.(statefulset.Controller), old.dst.(pod.Controller))
+			return join.StatefulSetPods(jctx(ctx), old.src.(statefulset.Controller), old.dst.(pod.Controller))
 		})
 	case "JobPods":
 		return podJoinOver(ctx, old.src, old.dst.(pod.Controller), nil, func() (pod.Controller, error) {
-			return join.JobPods(ctx, old.src.(job.Controller), old.dst.(pod.Controller))
+			return join.JobPods(jctx(ctx), old.src.(job.Controller), old.dst.(pod.Controller))
 		})
 	case "IngressPods":
 		return podJoinOver(ctx, old.src, old.dst.(pod.Controller), old.mid, func() (pod.Controller, error) {
-			return join.IngressPods(ctx, old.src.(ingress.Controller), old.mid.(service.Controller), old.dst.(pod.Controller))
+			return join.IngressPods(jctx(ctx), old.src.(ingress.Controller), old.mid.(service.Controller), old.dst.(pod.Controller))
 		})
 	case "IngressServices":
 		ic, sc := old.src.(ingress.Controller), old.dst.(service.Controller)
-		j, err := join.IngressServices(ctx, ic, sc)
+		j, err := join.IngressServices(jctx(ctx), ic, sc)
 		if err != nil {
 			return nil, err
 		}
